@@ -404,7 +404,7 @@ fn worker(ctx: &WorkerCtx) -> Result<(), Fail> {
         st.class("structured pairs, all binary operations");
         // generated boards
         let mut g = Expand(ctx.wseed(18));
-        let n = ctx.share(ctx.tier.pick(60_000, 2_000_000));
+        let n = ctx.share(ctx.tier.pick(200_000, 2_000_000));
         for k in 0..n {
             let x = match k % 3 {
                 0 => g.next(),
@@ -422,7 +422,7 @@ fn worker(ctx: &WorkerCtx) -> Result<(), Fail> {
         st.class_n("generated boards (unary + binary)", n);
     }
     let strat = (edge_u64(), prop::collection::vec(op_strategy(), 1..12)).prop_map(|(board, ops)| IterCase { board, ops });
-    run_proptest(ctx, 18, ctx.share(ctx.tier.pick(400_000, 20_000_000)), strat, |c| serde_json::to_value(c).unwrap(), iter_case)
+    run_proptest(ctx, 18, ctx.share(ctx.tier.pick(1_500_000, 20_000_000)), strat, |c| serde_json::to_value(c).unwrap(), iter_case)
 }
 
 fn parse_hex(v: &Value) -> Result<u64, String> {
